@@ -266,6 +266,10 @@ def check_chain(mtjs, fmts, dev=None):
         os.makedirs(d_in)
         os.makedirs(d_out)
     path = os.path.join(d_in, 'f0.' + EXT[fmts[0]])
+    if dev.get('names') == 'tmp':
+        path = os.path.join(d_in, 'f1.' + EXT[fmts[1]] + '.tmp')        # the source is called <destination>.tmp
+    elif dev.get('names') == 'gz':
+        path = os.path.join(d_in, 'f1.' + EXT[fmts[1]])                 # the source is called <destination>.gz
     data = text.encode(src_enc or 'utf-8')
     if dev.get('gz') == 'members':
         # a gzip file of three members (cat a.gz b.gz c.gz, pigz -i, bgzip), cut at arbitrary bytes
@@ -766,6 +770,8 @@ def run_chunk(chunk):
                                    ('tigerxml', {'dest_exists': True, 'path': 'relative', 'eol': 'crlf'})):
                     devs.append((srcP, [src, dest], fdev))
                 devs.append((srcP, [src, 'export4', 'tigerxml'], {'path': 'odd', 'dest_exists': True}))
+                devs.append((srcP, [src, 'export3'], {'names': 'tmp'}))
+                devs.append((srcP, [src, 'tigerxml'], {'names': 'gz', 'gz': True}))
             for src in ('export3', 'tigerxml'):
                 for dest in ('export3', 'tigerxml'):
                     devs.append((P[:3], [src, dest], {'src_opts': ['continuous'], 'expect': 'continuous'}))
@@ -787,6 +793,11 @@ def run_chunk(chunk):
             par = [special_words(((1, 2), 3, 4), ['(SPD)', 'x[1]', '{a}', 'Student(inn)en'], 31),
                    special_words((1, (2, 3)), ['(', ')', 'a)('], 32)]
             nbsp = [special_words(((1, 2), 3), ['10\u00a0000', 'a\u202fb', 'x\u3000'], 33)]
+            # ... and part-of-speech tags with bracket characters (the TIGER tag $( of every parenthesis and quote)
+            ptag = special_words(((1, 2), 3, 4), ['(', 'x', ')', '"'], 34)
+            for tk, tag in zip(ptag.toks, ['$(', 'NN', '$(', '$(']):
+                tk['pos'] = tag
+            par = par + [ptag]
             for src in ('export3', 'export4', 'tigerxml'):
                 for dest in DEST:
                     devs.append((par, [src, dest], {}))
